@@ -541,3 +541,91 @@ func TestRegress_C12(t *testing.T) {
 	}
 	log.Destroy()
 }
+
+
+// ---------------------------------------------------------------- overflow with a recycled buffer
+
+// TestC12_OverflowReuse: the caller recycles ONE buffer while the asynchronous buffer is full
+// (small buffer, slow or parked appender). Whatever the overflow policy does with an item, every
+// item that is delivered must carry the bytes that were in the caller's buffer at call time, in
+// call order; with Block every item must be delivered.
+func TestC12_OverflowReuse(t *testing.T) {
+	vk.Rule(rule)
+	rapid.Check(t, func(t *rapid.T) {
+		policy := rapid.SampledFrom([]string{"Block", "DiscardOldest", "Discard"}).Draw(t, "policy")
+		n := rapid.IntRange(120, 600).Draw(t, "writes")
+		slow := rapid.SampledFrom([]int{20, 100, 400}).Draw(t, "delayUS")
+		parked := policy != "Block" && rapid.Bool().Draw(t, "parked")
+		viaHandle := rapid.Bool().Draw(t, "viaHandle")
+		log.Destroy()
+		vk.ResetRecs()
+		console.Reset()
+		log.Stdout = console
+		var gate *vk.Behavior
+		if parked {
+			gate = vk.NewGate()
+			vk.SetBehavior("h1a0", gate)
+		} else {
+			vk.SetBehavior("h1a0", &vk.Behavior{Delay: func(int) time.Duration { return time.Duration(slow) * time.Microsecond }})
+		}
+		m := map[string]string{"enableCaller": "false", "appender.unused.type": "Discard"}
+		for _, name := range handleNames {
+			m["appender."+name+"a0.type"] = "Rec"
+			m["logger."+name+".type"] = "Logger"
+			m["logger."+name+".tags"] = "_c12_" + name
+			m["logger."+name+".appenderRef.ref"] = name + "a0"
+		}
+		m["logger.h1.type"] = "AsyncLogger"
+		m["logger.h1.bufferSize"] = "100"
+		m["logger.h1.bufferFullPolicy"] = policy
+		if err := log.Refresh(m); err != nil {
+			t.Fatalf("VERIF-INCONCLUSIVE C12: %v", err)
+		}
+		mk := func(i int) []byte {
+			return []byte(fmt.Sprintf("ov%05d:%s\n", i, strings.Repeat(string(rune('a'+i%26)), 5+i%40)))
+		}
+		buf := make([]byte, 0, 64)
+		done, p := vk.Within(120*time.Second, func() {
+			for i := 0; i < n; i++ {
+				buf = append(buf[:0], mk(i)...)
+				if viaHandle {
+					_, _ = handles["h1"].Write(buf)
+				} else {
+					_, _ = handles["h1"].Write(buf[:len(buf):len(buf)])
+				}
+				for j := range buf {
+					buf[j] = '#'
+				}
+			}
+			if gate != nil {
+				close(gate.Release)
+			}
+			log.Destroy()
+		})
+		if p != nil {
+			t.Fatalf("VERIF-VIOLATION C12: writing panicked: %v", p)
+		}
+		if !done {
+			vk.HardFail("c12-hang", map[string]any{"policy": policy, "writes": n}, "C12: %d writes with policy %s + Destroy did not finish", n, policy)
+		}
+		vk.Eval()
+		vk.Class("overflow-reuse:" + policy)
+		vk.NonTrivial(fmt.Sprintf("overflow/%s/%d/%d/%v", policy, n, slow, parked))
+		items := vk.Rec("h1a0").Items()
+		last := -1
+		for k, it := range items {
+			var seq int
+			if _, err := fmt.Sscanf(string(it.Bytes), "ov%05d:", &seq); err != nil || !bytes.Equal(it.Bytes, mk(seq)) {
+				t.Fatalf("VERIF-VIOLATION C12: delivery #%d holds %s: not the bytes any call wrote (the caller recycled its buffer after Write returned; policy %s, %d writes, buffer 100)", k, clip(it.Bytes), policy, n)
+			}
+			if seq <= last {
+				t.Fatalf("VERIF-VIOLATION C12: write #%d delivered after write #%d (policy %s)", seq, last, policy)
+			}
+			last = seq
+		}
+		if policy == "Block" && len(items) != n {
+			t.Fatalf("VERIF-VIOLATION C12: Block policy delivered %d of %d raw writes", len(items), n)
+		}
+	})
+	log.Destroy()
+}
